@@ -178,6 +178,34 @@ Fixpoint noise_ok_from (acc : text) (cs : list chunk) : bool :=
   end.
 Definition noise_ok (cs : list chunk) : bool := noise_ok_from [] cs.
 
+(* LocalBackend._all_trial_results (since fix 3359d87): a last line of std.out
+   that is not terminated by a newline is still being written and is dropped
+   before retrieve is called:
+     if log_lines and not log_lines[-1].endswith("\n"): log_lines = log_lines[:-1] *)
+Definition ends_nl (l : text) : bool := Z.eqb (last l 0) NL.
+Fixpoint drop_unterminated (lines : list text) : list text :=
+  match lines with
+  | [] => []
+  | [l] => if ends_nl l then [l] else []
+  | l :: r => l :: drop_unterminated r
+  end.
+
+(* what one poll of LocalBackend parses when std.out holds the text [t] *)
+Definition poll_model (t : text) : list text := retrieve_model (drop_unterminated (readlines t)).
+
+(* the payloads of exactly those reports whose whole line, newline included,
+   lies inside the first [n] characters of [render cs] (position arithmetic
+   only: walk the chunks, subtract their lengths, stop at the first report
+   line that does not fit) *)
+Fixpoint delivered_upto (cs : list chunk) (n : nat) : list text :=
+  match cs with
+  | [] => []
+  | Noise s :: r => delivered_upto r (n - List.length s)
+  | Report p :: r =>
+      let len := (List.length PRE + List.length p + 1)%nat in
+      if Nat.leb len n then p :: delivered_upto r (n - len) else []
+  end.
+
 (* ---- sender: Reporter ---------------------------------------------------- *)
 
 (* one call of the reporter with keyword arguments *)
